@@ -129,12 +129,12 @@ type c07Result struct {
 }
 
 type c07Info struct {
-	Results      []c07Result
-	Frames       int
-	LiesApplied  int
-	BigIDs       bool
-	Staggered    bool
-	Completed    int
+	Results     []c07Result
+	Frames      int
+	LiesApplied int
+	BigIDs      bool
+	Staggered   bool
+	Completed   int
 }
 
 const c07Deadline = 30 * time.Second
